@@ -35,10 +35,10 @@ CHECK = dict(
     level_note="trusted: clang/gcc code generation, the C generator's UB-freedom, the ELF reader and ABI set-up of the harness",
 )
 
-MAX_REPORTS = 5
+MAX_REPORTS = 3
 TARGETS = ["arm", "thumb", "aarch64", "mips", "mipsel", "ppc"]
 OPTS = ["-O0", "-O1", "-O2", "-Os"]
-QUICK = dict(funcs=14, inputs=3, levels=1, gcc_funcs=0, nst=(5, 9))
+QUICK = dict(funcs=12, inputs=3, levels=1, gcc_funcs=0, nst=(5, 9))
 THOROUGH = dict(funcs=420, inputs=5, levels=2, gcc_funcs=10, nst=(5, 11))
 
 
@@ -295,7 +295,15 @@ def report(R, rec, rng, build, guest, t, o, bk, f, bad, chunk_id):
     ops = sorted(set(f.ops(enabled)))
     rec.count("disagreements:%s" % t)
     rec.count("reduction_compiles", tries)
-    key = "%s %s: %s" % (t, kind, "+".join(ops) if ops else "(no catalogue operation left)")
+    if len(ops) == 1:
+        key = "%s %s: %s" % (t, kind, ops[0])
+    elif not ops:
+        key = "%s %s: (no catalogue operation left)" % (t, kind)
+    else:
+        # register-allocation / context dependent: no single operation reproduces it alone.
+        # One bucket per target and kind; the operations are in the witness.
+        key = "%s %s: several operations" % (t, kind)
+        rec.count("unreduced:%s" % t)
     if bk != "python":
         key = "[%s] " % bk + key
     wit = dict(target=t, opt=o, backend=bk, ops_all=f.ops(), ops_reduced=ops,
@@ -325,4 +333,6 @@ def floors(tier, counters, evaluations):
 
 
 # 60 % of the number of distinct mnemonics executed per target in calibration runs on the unchanged tree
-MIN_MNEMONICS = dict(arm=10, thumb=10, aarch64=10, mips=10, mipsel=10, ppc=10)
+# (calibration, quick tier, seed 0: arm 89, thumb 37, aarch64 64, mips/mipsel 52, ppc 81 distinct mnemonics;
+# Thumb-2 is mostly undecodable for miasm, hence its low floor)
+MIN_MNEMONICS = dict(arm=53, thumb=12, aarch64=38, mips=31, mipsel=31, ppc=48)
